@@ -27,24 +27,46 @@ func (d *Data) getMemDBbyVersion(v dvid.VersionID) (db *memdb, found bool) {
 	if d.dbs == nil {
 		return
 	}
-	d.dbs.mu.RLock()
-	defer d.dbs.mu.RUnlock()
 	uuid, err := datastore.UUIDFromVersion(v)
 	if err != nil {
 		return
 	}
 
+	var headBranch string
+	var isHead bool
+	d.dbs.mu.RLock()
 	db, found = d.dbs.static[uuid]
-	if found {
-		return
-	}
-	for branch := range d.dbs.head {
-		_, branchV, err := datastore.GetBranchHead(uuid, branch)
-		if err == nil && branchV == v {
-			return d.dbs.head[branch], true
+	if !found {
+		for branch, mdb := range d.dbs.head {
+			_, branchV, err := datastore.GetBranchHead(uuid, branch)
+			if err == nil && branchV == v {
+				db, found, headBranch, isHead = mdb, true, branch, true
+				break
+			}
 		}
 	}
-	return
+	d.dbs.mu.RUnlock()
+	if !isHead || db.follows(v) {
+		return
+	}
+
+	// The branch HEAD moved to a version that does not continue the one this db holds (e.g., a
+	// new version was made on a merge node), so the db has to be rebuilt from the store.
+	d.dbs.mu.Lock()
+	defer d.dbs.mu.Unlock()
+	if cur := d.dbs.head[headBranch]; cur != db && cur.follows(v) {
+		return cur, true
+	}
+	mdb := newMemDB()
+	if err := d.loadMemDB(v, mdb); err != nil {
+		dvid.Errorf("unable to reload in-memory db for neuronjson %q branch %q at version %d: %v\n",
+			d.DataName(), headBranch, v, err)
+		return nil, false
+	}
+	d.initFieldTimes(mdb)
+	mdb.headV = v
+	d.dbs.head[headBranch] = mdb
+	return mdb, true
 }
 
 // in-memory neuron annotations with sorted body id list for optional sorted iteration.
@@ -53,7 +75,38 @@ type memdb struct {
 	ids        []uint64          // sorted list of body ids
 	fields     map[string]int64  // list of all fields and their counts for HEAD
 	fieldTimes map[string]string // timestamp of last update for each field in HEAD
+	headV      dvid.VersionID    // for a branch HEAD db, the version whose content it holds (0 if not loaded)
 	mu         sync.RWMutex
+}
+
+func newMemDB() *memdb {
+	return &memdb{
+		data:       make(map[uint64]NeuronJSON),
+		fields:     make(map[string]int64),
+		fieldTimes: make(map[string]string),
+		ids:        []uint64{},
+	}
+}
+
+// follows returns true if this branch HEAD db holds the content of version v: it was loaded
+// for v, or for the only parent of v.  A new version starts with exactly the content of its
+// parent and every later change to it passes through this db, so the db then simply follows
+// the HEAD.  Anything else means the HEAD moved to another line of the DAG.
+func (mdb *memdb) follows(v dvid.VersionID) bool {
+	mdb.mu.Lock()
+	defer mdb.mu.Unlock()
+	if mdb.headV == v {
+		return true
+	}
+	if mdb.headV == 0 {
+		return false
+	}
+	parents, err := datastore.GetParentsByVersion(v)
+	if err != nil || len(parents) != 1 || parents[0] != mdb.headV {
+		return false
+	}
+	mdb.headV = v
+	return true
 }
 
 // initializes the in-memory dbs for the given list of UUIDs + branch names in
@@ -66,12 +119,7 @@ func (d *Data) initMemoryDB(versions []string) error {
 	versions = append(versions, ":master")
 	dvid.Infof("Initializing in-memory dbs for neuronjson %q with versions %v\n", d.DataName(), versions)
 	for _, versionSpec := range versions {
-		mdb := &memdb{
-			data:       make(map[uint64]NeuronJSON),
-			fields:     make(map[string]int64),
-			fieldTimes: make(map[string]string),
-			ids:        []uint64{},
-		}
+		mdb := newMemDB()
 		if strings.HasPrefix(versionSpec, ":") {
 			branch := strings.TrimPrefix(versionSpec, ":")
 			dbs.head[branch] = mdb
@@ -81,6 +129,8 @@ func (d *Data) initMemoryDB(versions []string) error {
 					branch, d.DataName(), err)
 			} else if err := d.loadMemDB(v, mdb); err != nil {
 				return err
+			} else {
+				mdb.headV = v
 			}
 			d.initFieldTimes(mdb)
 		} else {
